@@ -99,6 +99,9 @@ func c13GenTable(t *rapid.T) (c13Table, string) {
 	}
 	cols := rapid.IntRange(2, 6).Draw(t, "cols")
 	recs := rapid.IntRange(2, 8).Draw(t, "recs")
+	if rapid.IntRange(0, 39).Draw(t, "big") == 0 {
+		recs = rapid.IntRange(100, 400).Draw(t, "bigrecs") // larger than the default limit
+	}
 	for i := 0; i < recs; i++ {
 		// comment lines and blank lines may come before any record, also before the first one
 		for rapid.IntRange(0, 7).Draw(t, "cm") == 0 {
@@ -183,8 +186,19 @@ func c13FwdCheck(c c13Fwd) vfResult {
 	} else {
 		limits = []uint32{0, uint32(len(doc) + 1), uint32(len(doc) + 7)}
 		if c.Second >= 0 {
-			for L := c.Second; L <= len(doc); L++ {
+			step := 1
+			if len(doc)-c.Second > 1500 {
+				step = 23 // large tables: every 23rd cut, plus everything around the default limit and the end
+			}
+			for L := c.Second; L <= len(doc); L += step {
 				limits = append(limits, uint32(L))
+			}
+			if step > 1 {
+				for _, L := range []int{3071, 3072, 3073, len(doc) - 1, len(doc)} {
+					if L >= c.Second && L <= len(doc) {
+						limits = append(limits, uint32(L))
+					}
+				}
 			}
 		}
 	}
